@@ -65,3 +65,18 @@ func sqliteUsable() bool {
 	})
 	return sqliteOK
 }
+
+// hostNameTexts are host names (option 12) as real clients send them beside plain ASCII: names in national
+// alphabets, among them letters whose lower- or upper-case form has another length in UTF-8 (U+0130, U+212A,
+// U+2126, U+212B, U+1E9E, U+023A, U+0131, U+017F), composed and decomposed accents, right-to-left and CJK
+// names, emoji, punycode, fully qualified and dot-terminated names, invalid UTF-8 next to valid text.
+var hostNameTexts = []string{
+	"AL\u0130-PC", "\u0130STANBUL", "B\u0130LG\u0130SAYAR", "\u0130STANBUL.example.org", "\u212a-lab", "\u2126hm", "\u212bngstr\u00f6m", "STRA\u1e9eE",
+	"\u023a\u023e-host", "d\u0131\u015f", "\u017ftation", "caf\u00e9", "cafe\u0301", "\u00dcBER-pc", "\u0394\u0399\u039a\u03a4\u03a5\u039f", "\u041d\u043e\u0443\u0442\u0431\u0443\u043a",
+	"\u7b14\u8bb0\u672c", "\u05de\u05d7\u05e9\u05d1", "pc-\U0001f600", "xn--mnchen-3ya", "Host.Example.ORG", "host.example.org.", ".", "a..b", "-",
+	"MiXeD-Case", "\u0130", "\u0130\u0130\u0130\u0130\u0130\u0130\u0130\u0130", "a\u0130\xff", "\u0130.", "\u212a\u212a.\u212a",
+}
+
+func hostNameText(rng interface{ Intn(int) int }) []byte {
+	return []byte(hostNameTexts[rng.Intn(len(hostNameTexts))])
+}
